@@ -480,6 +480,9 @@ fn random_case(rng: &mut Rng) -> Planned {
             if rng.chance(1, 4) {
                 c.env = random_env(rng);
             }
+            if rng.chance(1, 6) {
+                c.tty_out = true;
+            }
             c.note = "search".into();
             return Planned { case: c, stratum: if hard { "search-hard" } else { "search-benign" } };
         }
@@ -932,7 +935,7 @@ fn mode_run(args: &[String]) -> i32 {
         *expect_kinds.entry(ek).or_insert(0) += 1;
         let nontriv = !d.obs.fired.is_empty() || d.obs.reads_r0 + d.obs.reads_rf >= 2;
         if nontriv {
-            let fp = fnv1a(format!("{:?}|{:?}|{:?}|{:?}|{:?}|{:?}|{:?}", d.case.argv, d.case.stdin, d.case.file, d.case.events, d.case.dchunk, d.case.file_mode, d.case.env).as_bytes());
+            let fp = fnv1a(format!("{:?}|{:?}|{:?}|{:?}|{:?}|{:?}|{:?}", d.case.argv, d.case.stdin, d.case.file, d.case.events, d.case.dchunk, d.case.file_mode, (&d.case.env, d.case.tty_out)).as_bytes());
             nontrivial.insert(fp);
         }
         // reach probes
@@ -1019,6 +1022,7 @@ fn mode_run(args: &[String]) -> i32 {
             "simulated_time": "none: grex reads no clock; logical steps = intercepted libc calls",
             "reach_probes": probes,
             "cases_with_extra_environment": done.iter().filter(|d| !d.case.env.is_empty()).count(),
+            "cases_with_stdout_as_terminal": done.iter().filter(|d| d.case.tty_out).count(),
             "determinism_double_runs": done2.len(),
             "distinct_nontrivial": nontrivial.len(),
             "rule": "one evaluation = one process lifetime of the real binary under one plan; distinct by (argv, stdin, file, plan); non-trivial = at least one scripted fault fired or the input stream was read with >= 2 read calls",
